@@ -12,6 +12,12 @@ Lemma pass_on (x : rs (option unit * bytes)) :
   bind x (fun '(r, w) => match r with Some _ => Ret (Some tt, [] ++ w) | None => Ret (None, [] ++ w) end) = x.
 Proof. destruct x as [[[[]|] w]|]; reflexivity. Qed.
 
+(** the same when the callee's result is returned as it is (no `?` followed by `Ok(())`) *)
+Lemma pass_on' (x : rs (option unit * bytes)) : bind x (fun '(r, w) => Ret (r, [] ++ w)) = x.
+Proof. destruct x as [[r w]|]; reflexivity. Qed.
+
+Ltac pass := first [apply pass_on | apply pass_on'].
+
 Theorem tie_read_and_cut_lines : forall (stdin : bytes) (o : opt),
   gen_read_and_cut_lines stdin o
   = match read_and_cut_lines o stdin with Some x => of_outcome x | None => RsPrelude.Panic end.
@@ -28,8 +34,8 @@ Proof.
   2:{ intros [b|f]; [|reflexivity]. unfold fallback_for. destruct (bfb b), (o_fallback o); reflexivity. }
   cbn [bind]. set (h := existsb _ (items (o_bounds o))).
   destruct (o_complement o), (o_compress o); cbn [negb andb];
-    try (fold (model_lines_buffered stdin o); unfold model_lines_buffered; apply pass_on).
+    try (fold (model_lines_buffered stdin o); unfold model_lines_buffered; pass).
   rewrite tie_ubl_is_forward_only. cbn [bind].
   destruct (is_forward_only (items (o_bounds o))); cbn [andb]; [destruct h; cbn [negb]|];
-    try (unfold model_lines_buffered; apply pass_on).
+    try (unfold model_lines_buffered; pass).
 Qed.
